@@ -135,3 +135,8 @@ def check(ctx):
     from .dtypes import check_module_buffers
 
     check_module_buffers(ctx, "C12-e", "bluebonnet.fluids.oil", floor=2)
+
+    # ---- C12-f the Fluid facade hands the oil correlations out unchanged (users reach Bo, viscosity and p_b through it)
+    from .c19 import check_delegation
+
+    check_delegation(ctx, "C12-f", only={"oil_FVF", "oil_viscosity", "pressure_bubblepoint"})
